@@ -9,17 +9,17 @@ package c17
 // buffers around a value) and after every single library call compares ALL of them
 // with what they read before.
 //
-// What is judged (only what holds by the documentation, and on the unchanged library):
-//   - Add builds its result in new slices (the documentation of the Union method sets
-//     the method apart from Add by "doesn't create any extra slices"): after v.Add(...)
-//     every other value reads as before, whatever memory it shares with v.
-//   - Remove shifts the receiver's own elements and the Union method merges into the
-//     receiver's own capacity when the result fits ("more efficient ... doesn't create
-//     any extra slices"): both work in place by design.  Cells inside that licence
-//     (Remove: the receiver's elements; Union with enough capacity: the receiver's
-//     capacity) may change; a value that reads such a cell is recorded as disturbed
-//     (observation, not judged) and retired.  Every cell outside the licence is judged.
+// What is judged ("mutators change only their receiver", read the way the unchanged
+// library itself requires for Remove and the Union method):
+//   - A mutator may rewrite any cell of its receiver's own backing array up to its
+//     capacity: Remove shifts the receiver's elements, the Union method merges into the
+//     receiver's capacity when the result fits, Add may append / insert in place when
+//     there is room.  Cells inside that licence (Remove: the receiver's elements; Add
+//     and a fitting Union: the receiver's capacity window) may change; a value that
+//     reads such a cell is recorded as disturbed (observation, not judged) and retired.
+//     Every cell outside the licence is judged, and so are the arguments.
 //   - A Union that does not fit cannot be done in place: every other value is judged.
+//   - A receiver that moved to another array shares it with nobody.
 //   - Non-mutating functions: every value is judged.
 
 import (
@@ -229,7 +229,7 @@ func (p *pool) mutate(v *val, api, desc string, want refset.Set, lic window, lic
 
 func (p *pool) add(v *val, args []int) bool {
 	want := refset.Union(v.model, refset.Of(args...))
-	return p.mutate(v, "Add", fmt.Sprintf("Add(%v)", args), want, window{}, "", func(s *sortints.SortedInts) { s.Add(args...) })
+	return p.mutate(v, "Add", fmt.Sprintf("Add(%v)", args), want, v.capacityWindow(), "Add", func(s *sortints.SortedInts) { s.Add(args...) })
 }
 
 func (p *pool) remove(v *val, x int) bool {
@@ -359,7 +359,7 @@ func (p *pool) build(kind int, content []int, name string) *val {
 	var tmp *val
 	lib := func(start []int) bool {
 		tmp = p.put(name, nil, refset.Set{})
-		return p.mutate(tmp, "Add", fmt.Sprintf("Add(%v)", start), refset.Of(start...), window{}, "", func(s *sortints.SortedInts) { s.Add(start...) })
+		return p.mutate(tmp, "Add", fmt.Sprintf("Add(%v)", start), refset.Of(start...), tmp.capacityWindow(), "Add", func(s *sortints.SortedInts) { s.Add(start...) })
 	}
 	switch kind {
 	case 0:
